@@ -49,6 +49,9 @@ type Op struct {
 	Major   uint64 `json:"major,omitempty"`   // dev: numbers of the DEVICE element (0:0 is what stat reports for files and fifos)
 	Minor   uint64 `json:"minor,omitempty"`
 	Xattrs  []XA   `json:"xattrs,omitempty"` // XATTR elements behind the ENTRY (restored by LocalFS unless NoSameOwner)
+	// ModeType, when set, replaces the file-type bits of the ENTRY's mode whatever elements follow it
+	// (lnk reg dir chr blk fifo sock none): the decoder goes by the elements, the writer may go by the mode
+	ModeType string `json:"modetype,omitempty"`
 }
 
 // XA is one extended attribute of an entry.
@@ -172,8 +175,14 @@ const (
 	devMajor    = 241 // local/experimental range: no driver behind it
 )
 
+var modeTypes = map[string]uint32{"lnk": catar.S_IFLNK, "reg": catar.S_IFREG, "dir": catar.S_IFDIR, "chr": catar.S_IFCHR, "blk": catar.S_IFBLK,
+	"fifo": catar.S_IFIFO, "sock": 0o140000, "none": 0}
+
 func modeOf(o Op) uint32 {
 	p := o.Perm & 0o7777
+	if ty, ok := modeTypes[o.ModeType]; ok {
+		return ty | p
+	}
 	switch o.K {
 	case "dir":
 		return catar.S_IFDIR | p
@@ -781,6 +790,12 @@ func runReal(c Case) (o hx.Outcome) {
 		nk := nameKind(op)
 		kinds[nk] = true
 		o.Class("entry:" + op.K)
+		if _, ok := modeTypes[op.ModeType]; ok {
+			o.Class("entry:mode-type-differs-from-elements", "entry:"+op.K+":mode-type:"+op.ModeType)
+			if h := hist[len(hist)-1]; op.K == "dir" && op.ModeType == "lnk" && !op.NoName && len(h) > 0 && h[len(h)-1].k == "sym" && h[len(h)-1].name == op.fullName() {
+				o.Class("same-name:symlink-then-dir-entry-with-symlink-mode")
+			}
+		}
 		if openDirs <= 0 {
 			what := "named-entry"
 			if op.NoName {
@@ -1289,6 +1304,9 @@ func genAttrs(t *rapid.T, o *Op) {
 			o.Xattrs = append(o.Xattrs, XA{Key: rapid.SampledFrom(xattrKeys).Draw(t, "xkey"), Val: rapid.SampledFrom([]string{"pwned", "", "orig"}).Draw(t, "xval")})
 		}
 	}
+	if rapid.IntRange(0, 7).Draw(t, "modetype") == 0 {
+		o.ModeType = rapid.SampledFrom([]string{"lnk", "lnk", "lnk", "reg", "dir", "chr", "blk", "fifo", "sock", "none"}).Draw(t, "modetypev")
+	}
 	switch o.K {
 	case "file":
 		o.Size = rapid.SampledFrom([]int{0, 1, 5, 5, 100, 2000}).Draw(t, "size")
@@ -1457,7 +1475,45 @@ func genCase(t *rapid.T) Case {
 		}
 	}
 
-	switch rapid.SampledFrom([]string{"random", "random", "sym-child", "sym-child", "sym-dir", "replace", "self", "self", "dotdot-dir", "dotdot-entry", "dotdot-entry", "absolute", "long", "same-name", "same-name", "same-name", "after-root-bye", "link-then-node", "link-then-node", "dir-again", "dir-again", "dir-again", "sibling", "sibling", "sibling"}).Draw(t, "scenario") {
+	switch rapid.SampledFrom([]string{"random", "random", "sym-child", "sym-child", "sym-dir", "replace", "self", "self", "dotdot-dir", "dotdot-entry", "dotdot-entry", "absolute", "long", "same-name", "same-name", "same-name", "after-root-bye", "link-then-node", "link-then-node", "dir-again", "dir-again", "dir-again", "sibling", "sibling", "sibling", "type-by-mode", "type-by-mode"}).Draw(t, "scenario") {
+	case "type-by-mode": // an object, then an entry of the same name whose ELEMENTS make it another kind but whose mode carries the type bits of the object in place
+		name := "x"
+		tg := rapid.SampledFrom([]string{"/sb/outside", "/sb/outside", "../outside", "/sb/l1/uoutside", "../uoutside", "/outside", "nonexistent", "/sb/l1/xvictim"}).Draw(t, "tbmtarget")
+		want := "lnk"
+		if len(ops) == 0 && wrap == 0 && rapid.IntRange(0, 3).Draw(t, "viaprelink") == 0 {
+			name, c.PreLink, c.Dest, c.DestLink = "l", tg, "", "" // the link was left by an earlier unpack
+		} else {
+			f := plainEntry(t, rapid.SampledFrom([]string{"sym", "sym", "sym", "sym", "file", "dev"}).Draw(t, "tbmfirst"), name)
+			f.Xattrs = nil
+			switch f.K {
+			case "sym":
+				f.Target = tg
+			case "file":
+				want = "reg"
+			case "dev":
+				want = map[string]string{"chr": "chr", "blk": "blk", "fifo": "fifo", "reg": "reg", "dir": "dir"}[f.DevType]
+			}
+			ops = append(ops, f)
+			if rapid.IntRange(0, 5).Draw(t, "between") == 0 {
+				ops = append(ops, plainEntry(t, "file", "other"))
+			}
+		}
+		m := plainEntry(t, rapid.SampledFrom([]string{"dir", "dir", "dir", "dir", "file", "dev"}).Draw(t, "tbmsecond"), name)
+		m.ModeType = want
+		if rapid.IntRange(0, 5).Draw(t, "tbmother") == 0 {
+			m.ModeType = rapid.SampledFrom([]string{"lnk", "reg", "chr", "fifo", "sock", "none"}).Draw(t, "tbmtype")
+		}
+		ops = append(ops, m)
+		if m.K == "dir" {
+			for i, n := 0, rapid.IntRange(1, 2).Draw(t, "tbminner"); i < n; i++ {
+				e := plainEntry(t, rapid.SampledFrom([]string{"file", "file", "dir", "sym"}).Draw(t, "tbmik"), []string{"pwned", "in"}[i])
+				ops = append(ops, e)
+				if e.K == "dir" {
+					ops = append(ops, Op{K: "bye"})
+				}
+			}
+			ops = append(ops, Op{K: "bye"})
+		}
 	case "sibling": // a symlink where a helper file of the unpacker for the next entry would be (name + affix)
 		affs := append([]affix{}, idiomAffixes...)
 		if obs := helperProbe().helpers; len(obs) > 0 && rapid.Bool().Draw(t, "use-observed") {
@@ -1734,7 +1790,7 @@ var spec = &hx.Spec[Case]{
 		"archives are chunked in the parent with desync.ChunkStream (min 64, avg 192, max 768) into an uncompressed LocalStore inside the chroot tree",
 		"the parent and most children run as root (chown, mknod succeed); 'unprivileged' children drop to uid/gid 4242 after the chroot, own the destination tree and the u* sentinels outside it, and get EPERM/EACCES like any user",
 	},
-	Required: []string{"path:catar", "path:index",
+	Required: []string{"path:catar", "path:index", "entry:mode-type-differs-from-elements", "same-name:symlink-then-dir-entry-with-symlink-mode",
 		"name:dotdot", "name:dotdot-prefix", "name:inner-dotdot", "name:absolute", "name:slash", "name:empty", "name:dot", "name:dot-slash", "name:long",
 		"name:symlink-name", "name:nameless", "name:self-slash", "symlink-then-entry", "absolute-symlink-target",
 		"xattrs:sym", "xattrs:file", "xattrs:dir", "xattrs:sym:restored:target-exists-outside",
